@@ -110,6 +110,9 @@ func randForest(rng *rand.Rand, p genParams) []*rtree {
 	// among its children, each repeat followed by a child of its own (merging must find the first one)
 	if rng.Intn(4) == 0 && budget > 12 {
 		par := all[rng.Intn(len(all))]
+		if rng.Intn(2) == 0 {
+			par = roots[rng.Intn(len(roots))] // (a wide ROOT half of the time)
+		}
 		if depth[par] < p.MaxDepth-1 {
 			w := 9 + rng.Intn(8)
 			var late [][]string
